@@ -18,6 +18,10 @@ enum Stage {
     BothConnected,
     AfterTraffic,
     AfterClose,
+    /// k handshake datagrams delivered and processed (quiescent), the next one already emitted;
+    /// applied only when the victim holds keys at that point (client: it has emitted its
+    /// ChangeCipherSpec; server: the ClientKeyExchange has been delivered to it)
+    Boundary(u8),
 }
 const STAGES: [Stage; 5] = [Stage::KeysMidHandshake, Stage::ServerConnected, Stage::BothConnected, Stage::AfterTraffic, Stage::AfterClose];
 
@@ -86,6 +90,19 @@ struct Obs {
     genuine_len: usize,
     injected: usize,
     end_ms: u64,
+    /// distinct DTLS states each side went through, sampled at every quiescent point
+    hist: [Vec<String>; 2],
+    handshake_datagrams: usize,
+    skipped_no_keys: bool,
+}
+
+fn sample(a: &End, b: &End, hist: &mut [Vec<String>; 2]) {
+    for (i, e) in [a, b].into_iter().enumerate() {
+        let s = sim::state_name(&e.dtls.get_state()).to_string();
+        if hist[i].last() != Some(&s) {
+            hist[i].push(s);
+        }
+    }
 }
 
 const GENUINE: [&[u8]; 4] = [b"ping-from-A-0123456789", b"ping-from-B-abcdefghij", b"second-from-A-ABCDEFGH", b"second-from-B-98765432"];
@@ -131,9 +148,12 @@ fn build_injection(inj: &Inj, genuine: Option<&Dgram>, victim: Side) -> Option<D
     }
 }
 
-async fn pump(a: &End, b: &End, net_rx: &mut sim::NetRx, buf: &mut Vec<u8>, max: usize, idle_ms: u64, capture: &mut Vec<Dgram>) -> usize {
+async fn pump(a: &End, b: &End, net_rx: &mut sim::NetRx, buf: &mut Vec<u8>, max: usize, idle_ms: u64, capture: &mut Vec<Dgram>, hist: &mut [Vec<String>; 2]) -> usize {
     let mut n = 0;
     while n < max {
+        // a 1 ms virtual sleep completes only when every task is idle: a quiescence barrier
+        tokio::time::sleep(Duration::from_millis(1)).await;
+        sample(a, b, hist);
         match sim::next_dgram(net_rx, Duration::from_millis(idle_ms)).await {
             Some(d) => {
                 capture.push(d.clone());
@@ -143,6 +163,8 @@ async fn pump(a: &End, b: &End, net_rx: &mut sim::NetRx, buf: &mut Vec<u8>, max:
             None => break,
         }
     }
+    tokio::time::sleep(Duration::from_millis(1)).await;
+    sample(a, b, hist);
     n
 }
 
@@ -169,24 +191,67 @@ fn run(sc: Option<&Scenario>, seed: u64) -> Option<Obs> {
                     _ => vec![],
                 }
             };
-            // handshake: deliver datagrams one by one so the stage boundaries are exact
-            pump(&a, &b, &mut net_rx, &mut buf, 6, 100, &mut cap).await;
-            for d in inject(Stage::KeysMidHandshake, &genuine_to) {
-                obs.injected += 1;
-                sim::deliver(&a, &b, &d, &mut buf).await;
-            }
-            pump(&a, &b, &mut net_rx, &mut buf, 2, 100, &mut cap).await;
-            for d in inject(Stage::ServerConnected, &genuine_to) {
-                obs.injected += 1;
-                sim::deliver(&a, &b, &d, &mut buf).await;
-            }
-            // finish the handshake (retransmissions included) for at most 8 virtual seconds
-            for _ in 0..80 {
-                pump(&a, &b, &mut net_rx, &mut buf, 64, 100, &mut cap).await;
-                if sim::crypto_of(&a).is_some() && sim::crypto_of(&b).is_some() {
-                    break;
+            // handshake: deliver datagrams one by one, reaching quiescence between them, so that
+            // every boundary is an exact, reproducible state of both endpoints
+            let mut hist: [Vec<String>; 2] = Default::default();
+            let mut k = 0usize;
+            let mut idle = 0;
+            let mut client_ccs_emitted = false;
+            let mut cke_delivered = false;
+            loop {
+                tokio::time::sleep(Duration::from_millis(1)).await;
+                sample(&a, &b, &mut hist);
+                let next = sim::next_dgram(&mut net_rx, Duration::from_millis(100)).await;
+                if let Some(d) = &next {
+                    if d.src_side() == Some(Side::A) && wire::dtls_records(&d.data).iter().any(|r| r.ctype == 20) {
+                        client_ccs_emitted = true;
+                    }
+                }
+                let here: Vec<Stage> = [Some(Stage::Boundary(k as u8)), (k == 6).then_some(Stage::KeysMidHandshake), (k == 8).then_some(Stage::ServerConnected)].into_iter().flatten().collect();
+                if next.is_some() || here.iter().any(|s| !matches!(s, Stage::Boundary(_))) {
+                    for st in here {
+                        let has_keys = match sc.as_ref().map(|s| s.victim) {
+                            Some(Side::A) => client_ccs_emitted,
+                            Some(Side::B) => cke_delivered,
+                            None => false,
+                        };
+                        if matches!(st, Stage::Boundary(_)) && !has_keys {
+                            if matches!(&sc, Some(s) if s.stage == st) {
+                                obs.skipped_no_keys = true;
+                            }
+                            continue;
+                        }
+                        let injs = inject(st, &genuine_to);
+                        if !injs.is_empty() {
+                            for d in injs {
+                                obs.injected += 1;
+                                sim::deliver(&a, &b, &d, &mut buf).await;
+                            }
+                            tokio::time::sleep(Duration::from_millis(1)).await;
+                            sample(&a, &b, &mut hist);
+                        }
+                    }
+                }
+                match next {
+                    Some(d) => {
+                        cap.push(d.clone());
+                        if d.dest_side() == Some(Side::B) && wire::dtls_records(&d.data).iter().any(|r| r.ctype == 22 && r.epoch == 0 && wire::handshake_msgs(&r.body).iter().any(|h| h.msg_type == 16)) {
+                            cke_delivered = true;
+                        }
+                        sim::deliver(&a, &b, &d, &mut buf).await;
+                        k += 1;
+                        idle = 0;
+                    }
+                    None => {
+                        idle += 1;
+                        if (sim::crypto_of(&a).is_some() && sim::crypto_of(&b).is_some()) || idle >= 80 {
+                            break;
+                        }
+                    }
                 }
             }
+            obs.handshake_datagrams = k;
+            sample(&a, &b, &mut hist);
             for d in inject(Stage::BothConnected, &genuine_to) {
                 obs.injected += 1;
                 sim::deliver(&a, &b, &d, &mut buf).await;
@@ -196,7 +261,7 @@ fn run(sc: Option<&Scenario>, seed: u64) -> Option<Obs> {
             let _ = a.dtls.send(Bytes::from_static(GENUINE[0])).await;
             let _ = b.dtls.send(Bytes::from_static(GENUINE[1])).await;
             let before = cap.len();
-            pump(&a, &b, &mut net_rx, &mut buf, 16, 50, &mut cap).await;
+            pump(&a, &b, &mut net_rx, &mut buf, 16, 50, &mut cap, &mut hist).await;
             for d in &cap[before..] {
                 if wire::dtls_records(&d.data).iter().all(|r| r.ctype == 23) {
                     if let Some(s) = d.dest_side() {
@@ -215,20 +280,20 @@ fn run(sc: Option<&Scenario>, seed: u64) -> Option<Obs> {
             // second genuine exchange: genuine traffic must still flow after the injection
             let _ = a.dtls.send(Bytes::from_static(GENUINE[2])).await;
             let _ = b.dtls.send(Bytes::from_static(GENUINE[3])).await;
-            pump(&a, &b, &mut net_rx, &mut buf, 16, 50, &mut cap).await;
+            pump(&a, &b, &mut net_rx, &mut buf, 16, 50, &mut cap, &mut hist).await;
             let is_close_stage = matches!(&sc, Some(s) if s.stage == Stage::AfterClose);
             if is_close_stage || sc.is_none() {
                 // genuine close by A, then inject
                 a.dtls.close();
-                pump(&a, &b, &mut net_rx, &mut buf, 16, 200, &mut cap).await;
+                pump(&a, &b, &mut net_rx, &mut buf, 16, 200, &mut cap, &mut hist).await;
                 for d in inject(Stage::AfterClose, &genuine_to) {
                     obs.injected += 1;
                     sim::deliver(&a, &b, &d, &mut buf).await;
                 }
-                pump(&a, &b, &mut net_rx, &mut buf, 16, 200, &mut cap).await;
+                pump(&a, &b, &mut net_rx, &mut buf, 16, 200, &mut cap, &mut hist).await;
             }
             tokio::time::sleep(Duration::from_millis(500)).await;
-            pump(&a, &b, &mut net_rx, &mut buf, 16, 50, &mut cap).await;
+            pump(&a, &b, &mut net_rx, &mut buf, 16, 50, &mut cap, &mut hist).await;
             for (i, e) in [&mut a, &mut b].into_iter().enumerate() {
                 if let Some(rx) = e.app_rx.as_mut() {
                     while let Ok(x) = rx.try_recv() {
@@ -245,6 +310,8 @@ fn run(sc: Option<&Scenario>, seed: u64) -> Option<Obs> {
                 obs.exporter_ok[i] = e.dtls.export_keying_material("EXTRACTOR-dtls_srtp", 60).is_ok();
             }
             obs.end_ms = now_ms(start);
+            sample(&a, &b, &mut hist);
+            obs.hist = hist;
             for h in a.tasks.drain(..).chain(b.tasks.drain(..)) {
                 h.abort();
             }
@@ -280,6 +347,11 @@ fn judge(sc: &Scenario, o: &Obs, base: &Obs) -> Vec<(String, String)> {
     // (2) connection state is what it is without the injection
     if o.state != base.state {
         out.push((format!("state_changed;stage={:?};victim={};inj={cls};to={}", sc.stage, sc.victim.name(), o.state[v]), format!("states {:?}, without the injection {:?}", o.state, base.state)));
+    }
+    // (2b) ... at every quiescent point on the way, not only at the end: a forged alert that closes
+    // the connection for one round trip is a state change even if a later flight re-opens it
+    if o.state == base.state && o.hist != base.hist {
+        out.push((format!("state_changed_transiently;stage={:?};victim={};inj={cls};history={}", sc.stage, sc.victim.name(), o.hist[v].join(">")), format!("state histories {:?}, without the injection {:?}", o.hist, base.hist)));
     }
     // (3) genuine traffic is still accepted: every genuine payload of the baseline is still delivered
     for side in 0..2 {
@@ -342,8 +414,9 @@ fn run_outbound(order: &[usize], sizes: &[usize], seed: u64) -> Option<OutObs> {
             drop(net_tx);
             let mut buf = Vec::new();
             let mut cap = vec![];
+            let mut hist: [Vec<String>; 2] = Default::default();
             for _ in 0..80 {
-                pump(&a, &b, &mut net_rx, &mut buf, 64, 100, &mut cap).await;
+                pump(&a, &b, &mut net_rx, &mut buf, 64, 100, &mut cap, &mut hist).await;
                 if sim::crypto_of(&a).is_some() && sim::crypto_of(&b).is_some() {
                     break;
                 }
@@ -525,6 +598,14 @@ fn main() {
             }
         }
     }
+    // every datagram boundary of the handshake (only those where the victim holds keys are applied)
+    for k in 0..base_open.handshake_datagrams {
+        for victim in [Side::A, Side::B] {
+            for inj in catalog(Stage::Boundary(k as u8), glen, thorough) {
+                scenarios.push(Scenario { stage: Stage::Boundary(k as u8), victim, inj: vec![inj] });
+            }
+        }
+    }
     let singles = scenarios.len();
     if thorough {
         // pairs: a crafted epoch-0 / alert record followed by each genuine-derived forgery class representative
@@ -550,6 +631,8 @@ fn main() {
     let results: Vec<(Scenario, Option<Obs>)> = scenarios.par_iter().map(|sc| (sc.clone(), run(Some(sc), seed))).collect();
     let mut outcomes = std::collections::BTreeSet::new();
     let mut n_effect = 0u64;
+    let mut n_skipped = 0u64;
+    let mut boundary_applied = std::collections::BTreeSet::new();
     for (i, (sc, o)) in results.iter().enumerate() {
         let Some(o) = o else {
             vh::machinery_failure(&format!("watchdog fired on {sc:?}"));
@@ -557,6 +640,13 @@ fn main() {
         let base = if sc.stage == Stage::AfterClose { &base_close } else { &base_open };
         let vs = judge(sc, o, base);
         outcomes.insert(format!("{:?}|{:?}|{}", o.state, o.delivered.iter().map(|d| d.len()).collect::<Vec<_>>(), vs.len()));
+        if o.skipped_no_keys {
+            n_skipped += 1;
+            continue;
+        }
+        if matches!(sc.stage, Stage::Boundary(_)) {
+            boundary_applied.insert((sc.stage, sc.victim as usize));
+        }
         if o.injected != sc.inj.len() {
             vh::machinery_failure(&format!("injection not applied in {sc:?} ({} of {})", o.injected, sc.inj.len()));
         }
@@ -628,11 +718,17 @@ fn main() {
     rep.set("injection_histories", scenarios.len() as u64);
     rep.set("single_injection_histories", singles as u64);
     rep.set("histories_with_an_effect", n_effect);
+    rep.set("handshake_datagram_boundaries", base_open.handshake_datagrams as u64);
+    rep.set("boundary_x_victim_points_with_keys_held", boundary_applied.len() as u64);
+    rep.set("boundary_histories_skipped_victim_without_keys", n_skipped);
+    if boundary_applied.len() < 4 {
+        vh::machinery_failure(&format!("only {} handshake boundaries had a victim holding keys", boundary_applied.len()));
+    }
     rep.set("outbound_cases", out_cases.len() as u64);
     rep.set("outbound_records_checked", out_records as u64);
     rep.set("genuine_record_len", glen as u64);
     rep.set("exhaustive", true);
-    rep.set("rule", "inbound: every (stage in {keys mid-handshake, server connected, both connected, after traffic, after close_notify}) x (victim A|B) x (record of the catalog: content types {20,21,22,23,24,255} x epochs {0,1,2} x 4 payloads x 2 source addresses; every single-bit flip, every truncation, re-addressing and epoch rewrite of a genuine application record) injected once (thorough: also pairs); each history executed on two real DtlsTransports and compared with the injection-free run: only genuine payloads delivered, same final states, genuine traffic still delivered. outbound: every start order of 1..3 concurrent send() tasks x payload sizes {0,1,1200,1201,2400,3000}; every emitted datagram must be exactly one type-23 record with epoch>=1, <=1237 bytes, authenticating under the session keys, unique (epoch,seq), and the plaintexts must reassemble the submitted payloads. distinct_nontrivial = distinct (states, delivery counts, verdict count) outcomes");
+    rep.set("rule", "inbound: every (stage in {every quiescent datagram boundary of the handshake at which the victim holds keys, both connected, after traffic, after close_notify}) x (victim A|B) x (record of the catalog: content types {20,21,22,23,24,255} x epochs {0,1,2} x 4 payloads x 2 source addresses; every single-bit flip, every truncation, re-addressing and epoch rewrite of a genuine application record) injected once (thorough: also pairs); each history executed on two real DtlsTransports and compared with the injection-free run: only genuine payloads delivered, same final states AND same state history at every quiescent point, genuine traffic still delivered. outbound: every start order of 1..3 concurrent send() tasks x payload sizes {0,1,1200,1201,2400,3000}; every emitted datagram must be exactly one type-23 record with epoch>=1, <=1237 bytes, authenticating under the session keys, unique (epoch,seq), and the plaintexts must reassemble the submitted payloads. distinct_nontrivial = distinct (states, delivery counts, verdict count) outcomes");
     rep.assume("concurrent send() tasks run on the single-threaded deterministic runtime: interleavings are at await-point granularity (start orders); pre-emption inside send_record between OS threads is not explored (sequence allocation is a single fetch_add)");
     rep.assume("a genuine record replayed unmodified (also from another address) may be delivered again: the statement does not promise replay protection");
     if outcomes.len() < 2 && rep.violation_count() == 0 {
@@ -652,7 +748,11 @@ fn scenario_to_json(sc: &Scenario) -> serde_json::Value {
 }
 
 fn scenario_from_json(r: &serde_json::Value) -> Scenario {
-    let stage = STAGES.iter().copied().find(|s| format!("{s:?}") == r["stage"].as_str().unwrap_or("")).unwrap_or_else(|| vh::machinery_failure("bad stage"));
+    let name = r["stage"].as_str().unwrap_or("");
+    let stage = match name.strip_prefix("Boundary(").and_then(|x| x.strip_suffix(")")).and_then(|x| x.parse::<u8>().ok()) {
+        Some(k) => Stage::Boundary(k),
+        None => STAGES.iter().copied().find(|s| format!("{s:?}") == name).unwrap_or_else(|| vh::machinery_failure("bad stage")),
+    };
     let victim = if r["victim"] == "A" { Side::A } else { Side::B };
     let inj = r["inj"].as_array().unwrap().iter().map(|i| match i["k"].as_str().unwrap() {
         "crafted" => Inj::Crafted { ctype: i["ctype"].as_u64().unwrap() as u8, epoch: i["epoch"].as_u64().unwrap() as u16, payload: i["payload"].as_u64().unwrap() as u8, stranger: i["stranger"].as_bool().unwrap() },
